@@ -7,5 +7,6 @@ for id in $ids; do
   prop=$(python3 -c "import json;m=json.load(open('seeded/$id/meta.json'));print(m.get('detect_with') or m['property'])")
   out=$(driver/try_patch.sh /verif/seeded/$id/patch.diff $prop quick 2>&1)
   tol=$(python3 -c "import json;print(json.load(open('seeded/$id/meta.json')).get('tolerated',False))")
-  if echo "$out" | grep -q "^VIOLATION property=$prop"; then echo "$id $prop CAUGHT"; elif [ "$tol" = "True" ]; then echo "$id $prop TOLERATED-BY-DESIGN"; else echo "$id $prop MISSED"; echo "$out" | tail -3; fi
+  gap=$(python3 -c "import json;print(json.load(open('seeded/$id/meta.json')).get('open_gap',False))")
+  if echo "$out" | grep -q "^VIOLATION property=$prop"; then echo "$id $prop CAUGHT"; elif [ "$tol" = "True" ]; then echo "$id $prop TOLERATED-BY-DESIGN"; elif [ "$gap" = "True" ]; then echo "$id $prop NOT-REPORTED (known gap, DESIGN section 8)"; else echo "$id $prop MISSED"; echo "$out" | tail -3; fi
 done
